@@ -578,6 +578,7 @@ func argItem(t Ty, lit string) stackitem.Item {
 }
 
 const gasLimit = 20_0000_0000 // 20 GAS: far above any generated terminating program
+const maxSteps = 300_000      // instructions per call; generated programs need a few thousand at most
 
 var (
 	int64Min = big.NewInt(0).SetInt64(-1 << 63)
@@ -604,7 +605,7 @@ func (c *compiled) vmCall(f *Fn, tuple []string) (outcome string, diag string) {
 		v.Estack().PushItem(argItem(f.Params[i], tuple[i]))
 	}
 	var err error
-	big := false
+	big, hang := false, false
 	func() {
 		defer func() {
 			if r := recover(); r != nil {
@@ -614,7 +615,11 @@ func (c *compiled) vmCall(f *Fn, tuple []string) (outcome string, diag string) {
 		// v.Run() without breakpoints is this loop; stepping lets the harness watch
 		// every value that reaches the top of the evaluation stack (the property
 		// only speaks about runs whose intermediate values fit 64 bits).
-		for v.Context() != nil {
+		for steps := 0; v.Context() != nil; steps++ {
+			if steps > maxSteps {
+				hang = true // vm.New() has no price getter, so the gas limit alone would not stop a loop
+				return
+			}
 			if err = v.Step(); err != nil {
 				return
 			}
@@ -628,6 +633,9 @@ func (c *compiled) vmCall(f *Fn, tuple []string) (outcome string, diag string) {
 			}
 		}
 	}()
+	if hang {
+		return "HANG", fmt.Sprintf("more than %d instructions", maxSteps)
+	}
 	if big {
 		return "BIG", ""
 	}
